@@ -242,6 +242,51 @@ def scale_fn(g):
         proj.cleanup()
 
 
+def lemma_real_environments():
+    """The unmodified program, started as a user would start it, in a few unusual process environments (concrete probes,
+    not solver-decided): the task must still run under bash with its contract intact."""
+    import tempfile, shutil
+    out = {"obligations": 0, "discharged": 0, "queries": 0, "solver_s": 0.0, "violations": [], "samples": [], "inconclusive": []}
+    base = tempfile.mkdtemp(prefix="verif-c07-env-", dir=hrun.SCRATCH_BASE if os.path.isdir(hrun.SCRATCH_BASE) else None)
+    try:
+        empty = os.path.join(base, "empty bin")
+        os.mkdir(empty)
+        keep = {k_: v_ for k_, v_ in os.environ.items() if k_ in ("PYTHONPATH", "LANG", "LC_ALL", "PYTHONDONTWRITEBYTECODE")}
+        envs = [("PATH names an empty directory", dict(keep, PATH=empty, HOME=base)),
+                ("PATH unset", dict(keep, HOME=base)),
+                ("HOME unset and TMPDIR missing", dict(keep, PATH=os.environ.get("PATH", "/usr/bin:/bin"), TMPDIR=os.path.join(base, "nonexistent"))),
+                ("PATH whose first bash is another program", dict(keep, PATH=os.path.join(base, "fake bin") + ":/usr/bin:/bin", HOME=base))]
+        os.mkdir(os.path.join(base, "fake bin"))
+        with open(os.path.join(base, "fake bin", "bash"), "w") as fh:
+            fh.write("#!/bin/sh\nexit 0\n")
+        os.chmod(os.path.join(base, "fake bin", "bash"), 0o755)
+        for label, env in envs:
+            proj = hrun.Project(scratch_root=base)
+            try:
+                proj.write("p/COND", "run_command(name='x', run='[[ -n \"$BASH_VERSION\" ]] && arr=(a b) && echo \"${#arr[@]} $COND_NAME $PWD\" > \"$COND_OUT/n.txt\"')\n")
+                out["obligations"] += 1
+                rc, so, se = hrun.real_cli(["run", "//p:x"], proj.root, env=env)
+                f = proj.out / "p" / "x.task" / "n.txt"
+                got = f.read_text().strip() if f.is_file() else None
+                want = "2 x %s" % os.path.realpath(str(proj.root / "p"))
+                if rc == 0 and got == want:
+                    out["discharged"] += 1
+                else:
+                    out["violations"].append(("env:not-run-under-bash", "with %s: exit %r, the task wrote %r (expected %r), stderr %r" % (label, rc, got, want, se[-200:]), label))
+                out["samples"].append({"environment": label, "exit": rc})
+            finally:
+                proj.cleanup()
+    finally:
+        shutil.rmtree(base, ignore_errors=True)
+    return out
+
+
+def lemmas(tier):
+    from vlib.runner import Lemma
+    return [Lemma("real-program-in-unusual-environments", lemma_real_environments,
+                  "4 process environments (PATH empty / unset / shadowing bash, HOME unset + TMPDIR missing); one real `cond run` each (concrete)")]
+
+
 def spaces(tier):
     goals = ["two dependents of one task both executed", "dependent of a cached experiment", "dependency in another package",
              "two dependencies with the same task name"]
